@@ -313,3 +313,8 @@ def eval_contextual(repo, it, closure_fnv):
     """paths of a contextual evaluator with symbolic (indent, column, page_width, ribbon_width)"""
     args = [Sym('L.indent', 'int'), Sym('L.column', 'int'), Sym('L.page_width', 'int'), Sym('L.ribbon_width', 'int')]
     return it.explore(closure_fnv.fn, args, {}, closure=closure_fnv.env)
+
+
+def bound(rep, quick, thorough):
+    """scenario bound for the current tier"""
+    return thorough if getattr(rep, 'tier', 'quick') == 'thorough' else quick
